@@ -10,7 +10,8 @@ CONSTANTS
   ScanSubsets, \* TRUE: the first scan may report any subset of the whole-item copies (D4)
   Tear,        \* TRUE: torn writes as well as crashes between steps
   MaxSeeds, MaxSeedLen, \* seed streams
-  WithTwins    \* seeds may contain size twins (-id) and foreign chunks (0)
+  WithTwins,   \* seeds may contain size twins (-id) and foreign chunks (0)
+  ResizeAlways \* TRUE: as the code is;  FALSE: NEGATIVE variant - a run that wrote nothing skips the resize
 
 Profiles5 == {<<1,2,3>>, <<2,2,1>>, <<1,1,1>>, <<3,1,2>>, <<2,3,2>>}
 Profiles2 == {<<1,2>>, <<2,1>>, <<1,1>>, <<2,3>>}
@@ -39,7 +40,7 @@ StartAny == \/ run = 1 /\ \E s \in FirstScans : Start(s)
             \/ run > 1 /\ \E s \in AdmissibleScans(sc, out) : Start(s)
 
 Progress == StartAny \/ ExecStore \/ BeginCopy \/ WriteOut \/ ReorderDone \/ FeedSeedChunk \/ BuildFetch
-            \/ FetchChunk \/ Succeed \/ Restart
+            \/ FetchChunk \/ FetchDone \/ ResizeStep(ResizeAlways) \/ Restart
 Faults == /\ run < MaxRuns
           /\ \/ Crash
              \/ Tear /\ \E t \in 0..2, g \in BOOLEAN : TornWrite(t, g)
